@@ -37,7 +37,7 @@ RULE = ("1-3 user nodes (UserInput / two-output function node; values from a poo
         "unsupported reflected operators: receivers are channels, single-output nodes, the two-output node "
         "(ambiguous) or nodes returned by earlier steps; operands are raw pool values, channels, nodes or earlier "
         "results; ~20% of the steps repeat an earlier step (other spelling), ~20% are near-identical variants "
-        "(1 vs '1' vs True vs 1.0, None vs 'None', a channel vs the string spelling its scoped label, swapped "
+        "(1 vs '1' vs True vs 1.0, -1 vs -2 and -1.0 vs -2.0 (equal hash()), None vs 'None', a channel vs the string spelling its scoped label, swapped "
         "operands, other receiver); plus a family of identifier labels that make the '_'-join of the label ambiguous; "
         "each returned node is pulled with p=0.6. Non-trivial = at least one node was "
         "injected; distinct = distinct (graph, program)")
@@ -120,7 +120,7 @@ N_, T_, F_ = ["none"], ["bool", True], ["bool", False]
 I = lambda z: ["int", z]
 S = lambda s: ["str", s]
 FL = lambda s: ["float", s]
-NUM = [I(0), I(1), I(2), I(3), I(-1), T_, F_, FL("1.0"), FL("0.5"), FL("2.5")]
+NUM = [I(0), I(1), I(2), I(3), I(-1), I(-2), T_, F_, FL("1.0"), FL("0.5"), FL("2.5"), FL("-1.0"), FL("-2.0")]
 STR = [S("a"), S("ab"), S("1"), S(""), S("None"), S("True"), S("1.0"), S("[1]"), S("2")]
 SEQ = [["list", []], ["list", [I(1)]], ["list", [I(1), I(2)]], ["list", [S("1")]], ["list", [I(1), I(2), I(3), I(4)]],
        ["tuple", []], ["tuple", [I(1)]], ["tuple", [I(1), I(2)]], ["tuple", [I(3), I(1), I(2)]]]
@@ -131,6 +131,8 @@ POOL = [N_] + NUM + STR + SEQ + SETS + SLICES
 # raw operands whose str() coincides although the values differ (S17)
 TWINS = [[I(1), S("1")], [I(2), S("2")], [N_, S("None")], [T_, S("True")], [FL("1.0"), S("1.0")],
          [["list", [I(1)]], S("[1]")], [I(0), S("0")], [["tuple", [I(1), I(2)]], S("(1, 2)")]]
+# different values with equal hash() in CPython (hash(-1) == hash(-2) == -2): must NOT share nodes
+HASHTWINS = [[I(-1), I(-2)], [FL("-1.0"), FL("-2.0")], [I(-1), FL("-2.0")]]
 # values that are == but print differently: must NOT share nodes
 EQUALS = [[I(1), T_, FL("1.0")], [I(0), F_], [I(2), FL("2.0")]]
 ATTRS = ["real", "imag", "numerator", "denominator", "zzz", "to_hdf", "_priv", "start", "stop"]
@@ -307,6 +309,10 @@ def near_identical(rng, users, step, theme):
             if v == b:
                 refs[i] = ["raw", a]
                 return s
+        for a, b in HASHTWINS:
+            if v in (a, b) and rng.random() < 0.8:
+                refs[i] = ["raw", b if v == a else a]
+                return s
         for grp in EQUALS:
             if v in grp:
                 refs[i] = ["raw", rng.choice([g for g in grp if g != v])]
@@ -400,13 +406,35 @@ def framing_family():
     return out
 
 
+def hash_twin_family():
+    """same receiver, same operator, operands -1 / -2 (and -1.0 / -2.0) inside one parent"""
+    out = []
+    seqs = [["list", [I(10), I(20), I(30), I(40)]], ["tuple", [I(3), I(1), I(2)]], S("abc")]
+    nums = [FL("8.0"), I(3), FL("2.5")]
+    k = 0
+    for e in ["getitem", "add", "sub", "mul", "pow", "truediv", "floordiv", "mod", "lt", "eq", "rmul"]:
+        for a, b in HASHTWINS:
+            if e == "getitem" and a[0] == "float":
+                continue
+            k += 1
+            val = seqs[k % 3] if e == "getitem" else nums[k % 3]
+            recv = ["node", 0] if k % 2 else ["chan", 0, 0]
+            first, second = (a, b) if k % 3 else (b, a)
+            users = [{"label": "x", "kind": "ui", "vals": [val], "ran": k % 4 != 0}]
+            steps = [{"k": "op", "e": e, "recv": recv, "others": [["raw", first]], "pull": True, "sp": k % 2},
+                     {"k": "op", "e": e, "recv": recv, "others": [["raw", second]], "pull": True, "sp": (k + 1) % 2},
+                     {"k": "op", "e": e, "recv": recv, "others": [["raw", first]], "pull": k % 2 == 0, "sp": 0}]
+            out.append({"parent": True, "users": users, "steps": steps})
+    return out
+
+
 def generate(ctx):
     rng = ctx.rng
     cases, seen = [], set()
     hm = handmade()
     if ctx.quick:
         hm = [c for i, c in enumerate(hm) if (i + ctx.seed) % 3 == 0]
-    hm = hm + framing_family()
+    hm = hm + framing_family() + hash_twin_family()
     for c in hm:
         seen.add(json.dumps(c, sort_keys=True))
         cases.append(c)
